@@ -187,7 +187,28 @@ def _tracks(draw, ctx):
         fl = draw(st.integers(0, 9))
         tap = draw(st.sampled_from([0, 37, 100000])) if fl in (7, 9) else None
         forced = draw(st.sampled_from([0, 11, 99999])) if fl in (8, 9) and j > 0 else None
-        notes.append({"tick": t, "mask": mask, "lens": lens, "tap": tap, "forced": forced})
+        note = {"tick": t, "mask": mask, "lens": lens, "tap": tap, "forced": forced}
+        # the lane lines of a chord in another than ascending lane order (each line names its own lane)
+        if mask and bin(mask).count("1") > 1 and draw(st.integers(0, 2)) == 0:
+            note["lane_order"] = list(draw(st.permutations(range(5))))
+        # an "echo" of the previous chord: the same lanes, written in another lane order, with the same
+        # lengths in FILE order (so each length now belongs to another lane)
+        prev = notes[-1] if notes else None
+        if prev and prev["mask"] and bin(prev["mask"]).count("1") > 1 and isinstance(prev["lens"], list) \
+                and draw(st.integers(0, 4)) == 0:
+            lanes = [i for i in range(5) if prev["mask"] >> i & 1]
+            po = prev.get("lane_order")
+            prev_file = sorted(lanes, key=lambda i: po[i]) if po else lanes
+            new_file = list(draw(st.permutations(lanes)))
+            new_lens = [0] * 5
+            for a, b in zip(prev_file, new_file):
+                new_lens[b] = min(prev["lens"][a], mx)
+            order = [0] * 5
+            for pos, lane in enumerate(new_file):
+                order[lane] = pos
+            note = {"tick": t, "mask": prev["mask"], "lens": new_lens, "tap": tap, "forced": forced,
+                    "lane_order": order}
+        notes.append(note)
     phrases = [[t, min(max_tick - t, ln)] for t, ln in
                sorted(draw(st.lists(st.tuples(tick_st, st.integers(0, 2000)), max_size=2)))]
     items = G.merge_track_items(notes, phrases, [])
@@ -219,6 +240,6 @@ def check_tracks(ctx: Ctx, case) -> None:
 
 PARTS: list[Part] = [
     custom_part("table", drive_table, check_table, {"quick": 8, "thorough": 8}),
-    hyp_part("tracks", strat_tracks, check_tracks, {"quick": 400, "thorough": 14000},
-             {"quick": 6, "thorough": 16}),
+    hyp_part("tracks", strat_tracks, check_tracks, {"quick": 600, "thorough": 14000},
+             {"quick": 8, "thorough": 16}),
 ]
